@@ -8,7 +8,9 @@
        target t is q*W or one of the two ends q*W -+ tol_wtarget of the borderline window;
      - weighted, q<=0 / q>=1: the least / greatest value carrying a non-zero weight (NaN if none);
    NaN for the empty sample; and the observed IQR is within tolerance of Q(0.75)-Q(0.25) of the
-   same specification.  Everything is over Q and closed under the global context. *)
+   same specification (weighted: at the exact targets 3W/4, W/4 when the verdict code is 0; a borderline
+   choice inside the IQR makes the code 1); unweighted results satisfy the exact bracket test
+   (bracket_facts).  Everything is over Q and closed under the global context. *)
 From MM Require Import Base.Num Base.GASort Model.Stream Proofs.Stream Model.Sample Model.Quantile Spec.Quantile
   Proofs.Quantile Proofs.QuantileW Proofs.Sample Proofs.CheckBase Proofs.NumSound Check.C10.
 From Coq Require Import Qround Lia Lqa Permutation Sorted.
